@@ -17,7 +17,7 @@ type c05 struct{}
 
 func init() {
 	register(c05{})
-	expectedProbes["C05"] = []string{"target-in-root", "target-in-other-document", "target-at-http-url", "nested-pointer", "odd-name", "dangling-pointer", "dangling-document", "ill-typed-target",
+	expectedProbes["C05"] = []string{"root-by-location-refused", "target-inside-extension", "target-in-root", "target-in-other-document", "target-at-http-url", "nested-pointer", "odd-name", "dangling-pointer", "dangling-document", "ill-typed-target",
 		"refused-document", "kind:schema", "kind:parameter", "kind:response", "kind:pathItem", "kind:items", "three-roots-agree", "nested-ref-not-followed", "continue-on-error-set", "package-level-loader", "operation-response-target"}
 }
 
@@ -133,7 +133,8 @@ func (c05) Gen(r *sim.RNG, tier string, idx int) *Scenario {
 	sc.Cfg = &cfg
 	sc.World = gen.Generate(r, cfg)
 	w := sc.World
-	tg := collectTargets(w)
+	extTargets := injectExtensionTargets(w, r)
+	tg := append(collectTargets(w), extTargets...)
 	n := 12
 	if tier == "thorough" {
 		n = 40
@@ -201,8 +202,62 @@ func (c05) Gen(r *sim.RNG, tier string, idx int) *Scenario {
 	if r.Bool(0.3) {
 		sc.Faults = DrawFaults(w, r, 1, []string{sim.FRefuse}, nil, false)
 	}
+	if r.Intn(12) == 0 {
+		// the root is known by its location only and the loader refuses it: every reference into it,
+		// the whole-document references "" and "#" included, designates nothing
+		sc.Mix = "root-refused"
+		sc.Faults = []sim.Fault{{URL: w.Root, Kind: sim.FRefuse}}
+		var ops []Op
+		for _, op := range sc.Ops {
+			if strings.HasSuffix(op.Entry, "WithBase") {
+				ops = append(ops, op)
+			}
+		}
+		for _, kind := range []string{"schema", "parameter", "response", "pathItem"} {
+			if r.Bool(0.6) {
+				ops = append(ops, Op{Entry: c05Entries[kind][0], Ref: []string{"", "#"}[r.Intn(2)], Ptr: "/" + kind})
+			}
+		}
+		sc.Ops = ops
+	}
 	sc.OrderKeys = []uint64{0}
 	return sc
+}
+
+// injectExtensionTargets adds schemas held inside vendor extensions of the root document and of
+// one of its definitions (names with upper-case letters, sometimes next to an all-lower-case twin
+// with other content), and returns them as reference targets.
+func injectExtensionTargets(w *model.World, r *sim.RNG) []refCase {
+	root, _ := w.Docs[w.Root].(map[string]interface{})
+	if root == nil || !r.Bool(0.35) {
+		return nil
+	}
+	var out []refCase
+	leaf := func(tag string) map[string]interface{} {
+		return map[string]interface{}{"type": "string", "description": tag}
+	}
+	name := []string{"x-Shared-Defs", "x-SHARED", "x-shared-Models"}[r.Intn(3)]
+	root[name] = map[string]interface{}{"Thing": leaf("ext-" + name), "other": map[string]interface{}{"type": "array", "items": leaf("ext-item")}}
+	if r.Bool(0.5) {
+		root[strings.ToLower(name)] = map[string]interface{}{"Thing": leaf("lower-case twin")}
+		out = append(out, refCase{"schema", w.Root, "/" + strings.ToLower(name) + "/Thing"})
+	}
+	out = append(out, refCase{"schema", w.Root, "/" + name + "/Thing"}, refCase{"schema", w.Root, "/" + name + "/other"}, refCase{"schema", w.Root, "/" + name + "/other/items"})
+	if defs, ok := root["definitions"].(map[string]interface{}); ok {
+		for _, dn := range keys(defs) {
+			d, ok := defs[dn].(map[string]interface{})
+			if !ok {
+				continue
+			}
+			if _, isRef := d["$ref"]; isRef {
+				continue
+			}
+			d["x-Variants"] = map[string]interface{}{"small": leaf("variant of " + dn)}
+			out = append(out, refCase{"schema", w.Root, "/definitions/" + model.Esc(dn) + "/x-Variants/small"})
+			break
+		}
+	}
+	return out
 }
 
 func c05Kind(entry string) model.Kind {
@@ -276,6 +331,9 @@ func (c05) Run(sc *Scenario) *Verdict {
 			if strings.ContainsAny(ptr, "~%?# {}\"\\") || !isASCII(ptr) {
 				v.probe("odd-name")
 			}
+			if strings.Contains(ptr, "/x-") {
+				v.probe("target-inside-extension")
+			}
 			if hs := model.Holders(model.Node{URL: docURL, Ptr: ptr, Val: want, Kind: kind}); len(hs) > 0 {
 				v.probe("nested-ref-not-followed")
 			}
@@ -300,6 +358,10 @@ func (c05) Run(sc *Scenario) *Verdict {
 		roots := []string{"typed", "generic", "nil"}
 		if !withBase {
 			roots = []string{"typed", "generic"}
+		}
+		if sc.Mix == "root-refused" {
+			roots = []string{"nil"}
+			v.probe("root-by-location-refused")
 		}
 		var results []*OpResult
 		for _, rf := range roots {
